@@ -39,6 +39,7 @@ pub struct Profile {
     pub p_join_of_subqueries: f64,
     pub p_on_or: f64,
     pub p_extra_select: f64,
+    pub p_pu_without_root: f64,
     pub p_unsupported_agg: f64,
     /// Probability of an aggregation over an aggregation grouped by the inner aggregate
     /// (`SELECT t.c, count(*) FROM (SELECT count(*) AS c FROM base GROUP BY key) AS t GROUP BY t.c`).
@@ -74,6 +75,7 @@ impl Profile {
             p_join_of_subqueries: 0.0,
             p_on_or: 0.0,
             p_extra_select: 0.0,
+            p_pu_without_root: 0.03,
             p_unsupported_agg: 0.0,
             p_nested_group: 0.0,
             p_multi_dp: 0.0,
@@ -84,7 +86,7 @@ impl Profile {
             "C09" => Profile { p_fn_exprs: 0.25, p_modulo: 0.12, p_alias_shadow: 0.4, public_keys_only: true, benign_data: true, p_distinct: 0.12, p_row_privacy: 0.15, p_grouped: 0.65, ..base },
             "C04" => Profile { p_unsupported_agg: 0.08, p_key_via_agg: 0.25, p_nested_group: 0.08, p_nested: 0.0, need_private_key: true, p_grouped: 1.0, p_outer: 0.0, p_distinct: 0.05, ..base },
             "C16" => Profile { benign_data: true, full_catalogue: true, p_public_table: 1.0, p_synthetic: 0.3, ..base },
-            "C02" => Profile { p_extra_select: 0.05, p_join_of_subqueries: 0.05, p_on_or: 0.04, p_unsupported_agg: 0.08, p_cross: 0.04, p_outer_kinds: 0.05, p_multi_dp: 0.04, p_nested_group: 0.03, p_shared_cte: 0.08, p_plain: 0.25, p_synthetic: 0.4, p_public_table: 0.5, p_outer: 0.2, ..base },
+            "C02" => Profile { p_pu_without_root: 0.08, p_extra_select: 0.05, p_join_of_subqueries: 0.05, p_on_or: 0.04, p_unsupported_agg: 0.08, p_cross: 0.04, p_outer_kinds: 0.05, p_multi_dp: 0.04, p_nested_group: 0.03, p_shared_cte: 0.08, p_plain: 0.25, p_synthetic: 0.4, p_public_table: 0.5, p_outer: 0.2, ..base },
             _ => base,
         }
     }
@@ -338,6 +340,14 @@ pub fn generate(seed: u64, run: u64, prop: &str) -> Generated {
             });
             protected.push("items".into());
         }
+    }
+    // a definition that protects tables only through their paths: the table the paths end in has
+    // no entry of its own and is public (own stream)
+    let mut rwr = Rng::stream(seed, run, "pu_without_root");
+    if !direct_orders && depth >= 2 && !row_privacy && rwr.chance(profile.p_pu_without_root) {
+        entries.retain(|e| e.table != "users");
+        protected.retain(|t| t != "users");
+        tags.push("pu_without_root".into());
     }
     // relation name != path for the protected tables (as in the repository's own test database);
     // the privacy-unit entries then designate the tables by relation name or by path
